@@ -29,6 +29,14 @@ def method_segments(an, cm, roles, m, res=None):
                        'caches in %s reached from %s::%s' % (note[0], show_site(note[1]), cm.name, m.key()))
                 if msg not in res.incomplete:
                     res.incomplete.append(msg)
+        derived = next((e for top in keep for sg in top.all_segments() for e in sg.effects
+                        if e.kind == 'CNT' and isinstance(getattr(e, 'val', None), tuple) and len(e.val) > 4 and e.val[0] == 'q'
+                        and e.val[1] == 'size' and e.val[2] == top.L.index), None)
+        if derived is not None:
+            msg = ('G-UNKNOWN the element counter is re-derived from the size of the key index when the call leaves, not maintained step '
+                   'by step: per-operation bookkeeping is not compared in %s reached from %s::%s' % (show_site(derived.site), cm.name, m.key()))
+            if msg not in res.incomplete:
+                res.incomplete.append(msg)
         note = counted_effect_loop(keep)
         if note is not None:
             msg = ('G-UNKNOWN a loop that changes the container is limited by a local count (%s): how often it runs is not modelled '
@@ -645,6 +653,15 @@ def check_balance(res, prop, cm, roles, m, seg):
         return
     if roles.name == 'fifo_cache':
         vals.pop('partition', None)
+    if vals.get('counter', 0) is None:
+        # counter := index.size() after the last change of the index (the count re-derived from the key index): by definition in
+        # step with the index
+        cnts = [e for e in seg.effects if e.kind == 'CNT']
+        last = cnts[-1] if cnts else None
+        v = getattr(last, 'val', None)
+        if isinstance(v, tuple) and len(v) > 4 and v[0] == 'q' and v[1] == 'size' and v[2] == seg.L.index and \
+                not [e for e in seg.effects[seg.effects.index(last) + 1:] if e.kind in ('BIND', 'UNBIND', 'INDEX_OP')]:
+            vals['counter'] = vals.get('index', 0)
     distinct = set(vals.values())
     ok = None not in distinct and len(distinct) == 1
     res.ob('R-BALANCE', ok=ok)
@@ -711,6 +728,10 @@ def check_bound(res, prop, cm, roles, m, seg):
             if e.kind != 'CNT':
                 continue
             cnt0 = False
+            if e.delta is None and isinstance(e.val, tuple) and len(e.val) > 4 and e.val[0] == 'q' and e.val[1] == 'size' and e.val[2] == seg.L.index:
+                # counter := index.size(): the count re-derived from the key index, whose own growth the BIND rules bound
+                res.ob('R-BOUND', ok=True)
+                return
             if e.delta is None:
                 res.ob('R-BOUND', ok=False)
                 V(res, prop, 'R-BOUND', cm, where_of(m, seg), 'counter assigned a value that is not its old value +/- a constant',
@@ -1029,6 +1050,16 @@ def check_erase_truth(res, prop, cm, roles, m, b):
               site_of_seg(seg, m), 'path [%s]' % val)
     else:
         var, incs = tally_info(b.top, b)
+        if var is None and isinstance(b.top.ret, tuple) and any(isinstance(t, tuple) and len(t) > 2 and t[0] == 'q' and t[1] == 'size'
+                                                                 for t in lift.subterms(b.top.ret)) \
+                and any(e[0] == 'enter' and '::~' in str(e[1]) for e in b.top.events):
+            # (only when a helper object's destructor took part: a plain `before - size()` is judged by the size-difference pass)
+            # the count is computed from container sizes (before / after), not tallied per element: not compared element by element
+            msg = ('G-UNKNOWN %s returns a count computed from container sizes (%s), not a per-element tally in %s reached from %s::%s'
+                   % (m.name, show(b.top.ret)[:80], show_site(site_of_seg(b.top, m)), cm.name, m.key()))
+            if msg not in res.incomplete:
+                res.incomplete.append(msg)
+            return
         n = len([e for e in incs if e.how != 'decl' and ops.is_increment(e, var)]) if var else None
         bad = len([e for e in incs if e.how != 'decl']) - (n or 0) if var else 1
         ok = var is not None and bad == 0 and n == (1 if removed else 0)
